@@ -342,7 +342,7 @@ def ob_native():
 
 @obligation("native/file_names", kind="bounded",
             desc="file name from a template: deterministic; distinct scalar values of a parameter (ints, floats incl. neighbouring doubles, "
-                 "numpy scalars, strings) give distinct names")
+                 "numpy scalars, strings) give distinct names; after a parameter is replaced in place on a results object the name follows the current value")
 def ob_names():
     from pyphysim.simulations.results import SimulationResults
     from pyphysim.simulations.parameters import SimulationParameters
@@ -381,5 +381,22 @@ def ob_names():
         same = (type(a) is type(b) or (isinstance(a, (int, float, np.integer, np.floating)) and isinstance(b, (int, float, np.integer, np.floating)))) and a == b
         if not same and str(a) != str(b) and na == nb:
             return {"distinct values, same name": [repr(a), repr(b), na]}
+        # the derived name is a function of the CURRENT parameters: one results object, name derived, parameter replaced in place
+        # through every public route, name derived again == the name of a fresh object holding the new value
+        for route in ("params.add", "params[...] =", "set_parameters"):
+            s = SimulationResults()
+            s.set_parameters(SimulationParameters.create({"x": a, "y": 3, "arr": np.arange(5)}))
+            T = "res_{x}_{y}_{arr}.json"
+            first = s.get_filename_with_replaced_params(T)
+            if route == "params.add":
+                s.params.add("x", b)
+            elif route == "params[...] =":
+                s.params["x"] = b
+            else:
+                s.set_parameters(SimulationParameters.create({"x": b, "y": 3, "arr": np.arange(5)}))
+            second = s.get_filename_with_replaced_params(T)
+            if first != na or second != nb:
+                return {"name after replacing x through %s" % route: second, "name of a fresh object with the new value": nb,
+                        "old value": repr(a), "new value": repr(b)}
         return None
     return bounded(gen(), check)
